@@ -473,5 +473,11 @@ def run(ctx: core.Ctx) -> int:
     from . import c01 as _c01
     _c01.py_float_buffers(ctx, ctx.parse("py/formak/python.py"), "py/formak/python.py")
     _c01.py_once(ctx, ctx.parse("py/formak/python.py"), "py/formak/python.py")
+    # the compiled reference model is evaluated by python.BasicBlock (171 temporaries with CSE on): the temporaries protocol is part of
+    # "the compiled Python model agrees with these formulas" (shared with C01 / C08)
+    from .. import tmprules as _tmp19
+    _tmp19.check_python_block(ctx, ctx.parse("py/formak/python.py"))
+    from . import c13 as _c13nv
+    _c13nv.named_arrays(ctx, ("vec",))
     return core.finish(ctx, explanation="def-use inlining of the reference model's module-level assignments into terms; wiring compared modulo "
                                         "commutativity", **META)
